@@ -543,7 +543,7 @@ FAMILIES = {
 # ---------------------------------------------------------------------------- enclosure goals
 ENCL_CACHE = []   # (case, obs) of the contract family, filled by run_contract
 POLE_CACHE = []   # (case, obs) of the poles family
-GOALS_PER_FILE = 60
+GOALS_PER_FILE = 30
 
 
 def rlit(f):
@@ -580,6 +580,7 @@ def make_goals(tier, rng):
   'holds' = a contract with a transcendental right-hand side evaluated on the implementation"""
   goals = []
   seen = set()
+  n_sampled0 = 0
   for c, o in ENCL_CACHE:
     key = json.dumps({k: v for k, v in c.items() if k != "tags"}, sort_keys=True)
     if key in seen or "raise" in o:
@@ -587,18 +588,21 @@ def make_goals(tier, rng):
     seen.add(key)
     s = strat_of(c)
     sampled0 = s.startswith("(GTsampled0")
-    if sampled0:
-      continue  # tied by the staged closed form, see make_sampled_goals
-    nn, nd = SHAPE[s]
+    nn, nd = (2 * c["eta"], 3) if sampled0 else SHAPE[s]
     term = design_term(c)
     for which, lst, ln in (("fnum", o["num"], nn), ("fden", o["den"], nd)):
       vals = [unhx(h) for h in lst] + [Fraction(0)] * ln
       for k in range(ln):
         if which == "fden" and k == 0:
           continue   # exactly 1: checked by corr_contract
+        if sampled0 and which == "fnum" and tier == "quick" and n_sampled0 >= 8 and k not in (1, ln - 1):
+          continue   # ~4 s per goal: quick keeps all coefficients of the first case, then two per case
         v = vals[k]
-        goals.append(("corr", {"case": c, "coefficient": "%s[%d]" % (which, k), "library_value": float(v)},
-                      "verdict (nth %d (%s %s) 0) %s %s" % (k, which, term, rlit(v), rlit(tol_for(v)))))
+        stmt = "verdict (nth %d (%s %s) 0) %s %s" % (k, which, term, rlit(v), rlit(tol_for(v, sampled0 and which == "fnum")))
+        # the first section of gammatone.sampled goes through the closed form of the iterated derivative
+        tac = "c13_decide_sampled" if sampled0 and which == "fnum" else "c13_decide"
+        goals.append(("corr", {"case": c, "coefficient": "%s[%d]" % (which, k), "library_value": float(v)}, stmt, tac))
+        n_sampled0 += 1 if tac == "c13_decide_sampled" else 0
   seen = set()
   for c, o in POLE_CACHE:
     key = json.dumps({k: v for k, v in c.items() if k != "tags"}, sort_keys=True)
@@ -612,7 +616,7 @@ def make_goals(tier, rng):
     # pole radius: both poles have modulus sqrt(den[2]) (poles family) and that is exp(-bandwidth/2)
     goals.append(("holds", {"case": c, "contract": "pole radius sqrt(den[2]) = exp(-bandwidth/2)",
                             "den2": float(b), "expected_radius": math.exp(-float(bw) / 2)},
-                  "verdict (resonator_R %s) (sqrt %s) %s" % (rlit(bw), rlit(b), rlit(TOL))))
+                  "verdict (resonator_R %s) (sqrt %s) %s" % (rlit(bw), rlit(b), rlit(TOL)), "c13_decide"))
   return goals
 
 
@@ -629,19 +633,19 @@ def make_misc_goals(tier, rng):
     alpha = -Fraction(den[delay]) if len(den) > delay else Fraction(0)
     goals.append(("holds", {"case": {"design": "comb.tau", "delay": delay, "tau": tau}, "contract": "alpha = e ** (-delay / tau)",
                             "library_alpha": float(alpha), "expected": math.exp(-delay / tau)},
-                  "verdict (comb_tau_alpha %d (Some %s)) %s %s" % (delay, rlit(Fraction(tau)), rlit(alpha), rlit(TOL))))
+                  "verdict (comb_tau_alpha %d (Some %s)) %s %s" % (delay, rlit(Fraction(tau)), rlit(alpha), rlit(TOL)), "c13_decide"))
   for delay in (1, 7):
     f = audiolazy.comb.tau(delay)
     alpha = -Fraction(f.denlist[delay])
     goals.append(("holds", {"case": {"design": "comb.tau", "delay": delay, "tau": "inf"}, "contract": "alpha = 1 for tau = inf",
                             "library_alpha": float(alpha)},
-                  "verdict (comb_tau_alpha %d None) %s %s" % (delay, rlit(alpha), rlit(TOL))))
+                  "verdict (comb_tau_alpha %d None) %s %s" % (delay, rlit(alpha), rlit(TOL)), "c13_decide"))
   for n_ in range(1, 7 if tier == "quick" else 11):
     x, y = audiolazy.gammatone_erb_constants(n_)
     goals.append(("corr", {"case": {"design": "gammatone_erb_constants", "n": n_}, "coefficient": "x", "library_value": x},
-                  "verdict (erb_constant_x %d) %s %s" % (n_, rlit(Fraction(x)), rlit(tol_for(Fraction(x))))))
+                  "verdict (erb_constant_x %d) %s %s" % (n_, rlit(Fraction(x)), rlit(tol_for(Fraction(x)))), "c13_decide"))
     goals.append(("corr", {"case": {"design": "gammatone_erb_constants", "n": n_}, "coefficient": "y", "library_value": y},
-                  "verdict (erb_constant_y %d) %s %s" % (n_, rlit(Fraction(y)), rlit(tol_for(Fraction(y))))))
+                  "verdict (erb_constant_y %d) %s %s" % (n_, rlit(Fraction(y)), rlit(tol_for(Fraction(y)))), "c13_decide"))
   return goals
 
 
@@ -654,14 +658,15 @@ def run_goal_files(chk, goals):
     if old.startswith("encl_"):
       os.remove(os.path.join(bdir, old))
   files = []
-  for k in range(0, len(goals), GOALS_PER_FILE):
-    path = os.path.join(bdir, "encl_%d.v" % (k // GOALS_PER_FILE))
+  nfiles = max(1, -(-len(goals) // GOALS_PER_FILE))
+  for j in range(nfiles):
+    path = os.path.join(bdir, "encl_%d.v" % j)
     with open(path, "w") as f:
       f.write("From Coq Require Import Reals List.\nFrom Interval Require Import Tactic.\n"
               "From AL Require Import C13.Model C13.Encl.\nImport ListNotations.\nOpen Scope R_scope.\n")
-      for i, (_, _, stmt) in enumerate(goals[k:k + GOALS_PER_FILE]):
-        f.write("Lemma g%d : %s.\nProof. c13_decide %d%%nat. Qed.\n" % (k + i, stmt, k + i))
-    files.append((k, path))
+      for i in range(j, len(goals), nfiles):   # round robin: the slow goals are spread over the files
+        f.write("Lemma g%d : %s.\nProof. %s %d%%nat. Qed.\n" % (i, goals[i][2], goals[i][3], i))
+    files.append((j, path))
   running, pending, results = [], list(files), {}
   while pending or running:
     while pending and len(running) < NPROC:
@@ -677,7 +682,7 @@ def run_goal_files(chk, goals):
   for k, p in files:
     rc, out = results[k]
     if rc != 0:
-      for i in range(k, min(k + GOALS_PER_FILE, len(goals))):
+      for i in range(k, len(goals), nfiles):
         bad[i] = "file-failed: " + out[-300:]
       continue
     ref = set(int(m) for m in re.findall(r"C13REFUTED\s+(\d+)", out))
@@ -688,7 +693,7 @@ def run_goal_files(chk, goals):
 
 
 def extra(chk, tier, rng):
-  goals = make_goals(tier, rng) + make_misc_goals(tier, rng) + make_sampled_goals(tier, rng)
+  goals = make_goals(tier, rng) + make_misc_goals(tier, rng)
   limit = 450 if tier == "quick" else 4500
   if len(goals) > limit:
     # keep every 'holds' goal, thin out the coefficient goals deterministically
@@ -703,12 +708,12 @@ def extra(chk, tier, rng):
   fs["cases"] += len(goals)
   fs["wall_s"] = round(time.time() - t0, 1)
   chk.stats["evaluations"] += len(goals)
-  for kind, desc, stmt in goals:
+  for kind, desc, stmt, tac in goals:
     chk.stats["tags"]["enclosure:" + kind] += 1
   for d in goals[:: max(1, len(goals) // 2)][:2]:
     chk.stats["samples"].append({"family": "enclosure", "case": d[1], "observed": d[2]})
   for i in sorted(bad):
-    kind, desc, stmt = goals[i]
+    kind, desc, stmt, tac = goals[i]
     how = bad[i]
     if kind == "holds" and how == "refuted":
       chk.violations.append({"family": "enclosure", "case": desc["case"], "observed": desc, "model_agrees": True})
@@ -719,5 +724,3 @@ def extra(chk, tier, rng):
         chk.broken.append(("tie", "enclosure %s (%s)" % (kind, how), {"goal": stmt, "what": desc}))
 
 
-def make_sampled_goals(tier, rng):
-  return []
